@@ -3,6 +3,7 @@
 from __future__ import annotations
 
 from ..rules import payload
+from ..rules import optional as optional_rules
 from .common import new_run
 
 LEVEL = "proof"
@@ -25,6 +26,7 @@ def check(model, tier):
     payload.r10_2_no_reset(ctx)
     payload.r10_3_evaluate_once(ctx)
     payload.r10_4_who_may_attach(ctx)
+    optional_rules.r_optional_truthiness(ctx, "R10.5", {"payload"})
     run.assume("CPython attribute semantics; code outside the package does not call object.__setattr__ on relations")
     run.assume("single-threaded histories (the property does not quantify over schedules)")
     return run
